@@ -105,7 +105,7 @@ class TableLineageAnalyzer:
                 from_table_lineage = table_lineage_storage.get_table_lineage(from_standard_table)
                 for source_table in from_table_lineage.get_standard_table_list():
                     source_column_list.append(SourceColumn(schema_name=source_table.schema_name,
-                                                           table_name=source_table.name,
+                                                           table_name=source_table.table_name,
                                                            column_name=None))
             return source_column_list
 
